@@ -1,6 +1,6 @@
 (** C10 — changing representation loses nothing: the obligations, written out in full. *)
 From Coq Require Import List NArith ZArith String.
-From SK Require Import lib.LGraph lib.StrJoin model.C10_Model model.C10_Text model.C10_Rxn model.C10_Dfs proof.C10_Dfs proof.C10_Rxn proof.C10_ImpH proof.C10_HRoundIts proof.C10_GmlEHFull proof.C10_ReindexEHFull proof.C10_Renumber proof.C10_G2MSpec proof.C10_G2MExt proof.C10_MolMapped proof.C10_RenumberRec proof.C10_Text proof.C10_Proof proof.C10_Hydrogen proof.C10_Routes proof.C10_GmlWrite proof.C10_HRound proof.C10_Routes2 proof.C10_Reindex proof.C10_MolGraph proof.C10_Smart proof.C10_GmlEH proof.C10_Select proof.C10_MolOk proof.C10_Full proof.C10_Attrs proof.C10_Light proof.C10_ReindexEH.
+From SK Require Import lib.LGraph lib.StrJoin model.C10_Model model.C10_Text model.C10_Rxn model.C10_Dfs proof.C10_Dfs proof.C10_Rxn proof.C10_ImpH proof.C10_HRoundIts proof.C10_GmlEHFull proof.C10_ReindexEHFull proof.C10_Renumber proof.C10_G2MSpec proof.C10_G2MExt proof.C10_IndexIds proof.C10_MolMapped proof.C10_RenumberRec proof.C10_Text proof.C10_Proof proof.C10_Hydrogen proof.C10_Routes proof.C10_GmlWrite proof.C10_HRound proof.C10_Routes2 proof.C10_Reindex proof.C10_MolGraph proof.C10_Smart proof.C10_GmlEH proof.C10_Select proof.C10_MolOk proof.C10_Full proof.C10_Attrs proof.C10_Light proof.C10_ReindexEH.
 Import ListNotations.
 Local Open Scope Z_scope.
 
@@ -804,3 +804,14 @@ Theorem C10_three_routes_text :
     via_text (its_to_gml (rsmi_to_its r p eo true false) true false explicit_h).
 Proof. exact three_routes_text. Qed.
 Print Assumptions C10_three_routes_text.
+
+(** THE POSITIVE SIDE of the known finding (C10_partial_mapping_id_collision_refuted): MolToGraph.transform(drop_non_aam=False,
+    use_index_as_atom_map=ui) gives every atom the id [atom_id ui index atom] (its map number if ui and mapped, index + 1 otherwise);
+    whenever these ids are pairwise distinct — always for ui=False, for fully mapped molecules with distinct maps, for unmapped
+    molecules, and for a partially mapped molecule iff no unmapped atom's index + 1 is another atom's map number (the oracle's key
+    condition) — the graph has exactly one node per atom, in atom order, with these ids: no atom is lost. *)
+Theorem C10_index_ids_no_collision :
+  forall (m : rmol) (ui : bool), nodupb (atom_ids ui 0 (fst m)) = true ->
+    node_ids (mol_to_graph m false ui) = atom_ids ui 0 (fst m).
+Proof. exact index_ids_no_collision. Qed.
+Print Assumptions C10_index_ids_no_collision.
